@@ -186,7 +186,7 @@ def _same(a, b):
 
 def call(label, fn, args, req=(), ledger=None, readonly=False):
     """Generic wrapper around every public call of the replay.  ArgumentsUnchanged: every ndarray argument has the same
-    dtype and samples afterwards (a changed SHAPE is only counted - the unpatched demodulate reshapes its argument);
+    dtype, (logical) shape and samples afterwards;
     the result does not alias an argument.  RepeatableCall: a second call with the SAME argument objects returns the same
     result.  EarlierResultsUnchanged: the result goes into the ledger and is re-checked after later calls.
     `readonly`: array arguments are handed over write-protected (an in-place writer raises)."""
@@ -202,6 +202,7 @@ def call(label, fn, args, req=(), ledger=None, readonly=False):
                 raise Bad(f"ArgumentsUnchanged: {label} modified the samples of the caller's array ({when})")
             if a.shape != shp:
                 SHAPE_OBS[label] = SHAPE_OBS.get(label, 0) + 1
+                raise Bad(f"ArgumentsUnchanged: {label} changed the shape of the caller's array from {shp} to {a.shape} ({when})")
     with np.errstate(all="ignore"):
         res = np.asarray(fn(*args))
     unchanged("first call")
